@@ -115,9 +115,10 @@ func (w *worldRT) RoundTrip(req *http.Request) (*http.Response, error) {
 	if err := req.Context().Err(); err != nil {
 		return nil, err
 	}
-	if req.Body != nil {
-		io.Copy(io.Discard, req.Body)
+	if req.Body != nil { // consume the body as a server would; the handler may still read it
+		b, _ := io.ReadAll(req.Body)
 		req.Body.Close()
+		req.Body = io.NopCloser(bytes.NewReader(b))
 	}
 	resp, err := h(req)
 	w.mu.Lock()
